@@ -707,3 +707,40 @@ mod f20_vec_own_bytes {
         assert!(FlatVec::<[u32; 3], u64>::validate(&c).is_ok(), "own bytes do not validate");
     }
 }
+
+/// Finding 38 (C05, C02, C10): the generated size() / ptr_from_bytes / ptr_to_bytes / validator read the alignment as `Self::ALIGN`;
+/// an inherent `const ALIGN` on the user's type (safe user code, no warning) wins over `FlatBase::ALIGN` there, but not in MIN_SIZE and
+/// the initialiser: size() exceeds the bytes mapped and the view is inconsistent (len > capacity).
+#[cfg(test)]
+mod f38_inherent_align_const {
+    use super::common::*;
+    #[flat(sized = false)]
+    pub struct Msg { pub id: u8, pub items: FlatVec<u8, u8> }
+    impl Msg { pub const ALIGN: usize = 4; }
+    #[flat(sized = false)]
+    pub enum En { A, B(u8, FlatVec<u8, u8>) }
+    impl En { pub const ALIGN: usize = 4; }
+    #[test]
+    fn size_is_rounded_to_the_trait_alignment() {
+        assert_eq!(<Msg as FlatBase>::ALIGN, 1);
+        let mut mem = AlignedBytes::new(16, 4);
+        let msg = Msg::new_in_place(&mut mem, MsgInit { id: 1, items: flat_vec![1u8, 2, 3] }).unwrap();
+        assert_eq!(FlatBase::size(msg), 5);
+    }
+    #[test]
+    fn size_stays_within_the_bytes_mapped() {
+        let mut mem = AlignedBytes::new(7, 4);
+        let msg = Msg::new_in_place(&mut mem, MsgInit { id: 1, items: flat_vec![1u8, 2, 3] }).unwrap();
+        assert!(FlatBase::size(msg) <= 7);
+        assert!(msg.items.len() <= msg.items.capacity());
+        assert_eq!(msg.items.as_slice(), &[1, 2, 3]);
+    }
+    #[test]
+    fn enum_view_and_size() {
+        assert_eq!(<En as FlatBase>::ALIGN, 1);
+        let mut mem = AlignedBytes::new(7, 4);
+        let e = En::new_in_place(&mut mem, EnInitB(1, flat_vec![1u8, 2, 3])).unwrap();
+        assert_eq!(FlatBase::size(e), 6);
+        assert!(En::validate(&mem).is_ok());
+    }
+}
